@@ -1308,16 +1308,45 @@ func simC17Store(c *Ctx) {
 	ri := c.G(nRec)
 	rec := store[ri]
 	forced := false
-	if c.G(20000) == 0 {
+	if c.G(6000) == 0 {
 		forced = true
 		// the documents of the recorded finding on huge exponents (known_findings.txt), read back undamaged with the
 		// type that makes the decoder hash and compare the number: every batch meets them
 		docs := []struct {
 			doc string
 			t   *TDesc
-		}{{"[1e999999]", &TDesc{K: KSet, Elem: tNumber}}, {`{"value":[1e999999],"type":["set","number"]}`, tDynamic}, {"[1e-9999]", &TDesc{K: KSet, Elem: tNumber}}}
+		}{{"[1e999999]", &TDesc{K: KSet, Elem: tNumber}}, {`{"value":[1e999999],"type":["set","number"]}`, tDynamic}, {"[1e-9999]", &TDesc{K: KSet, Elem: tNumber}},
+			// the same numbers where nothing hashes or compares them: as text, as a list member, as a map member
+			{"1e999999", tString}, {"[1e999999,1]", &TDesc{K: KList, Elem: tString}}, {`{"k":1E+999999}`, &TDesc{K: KMap, Elem: tString}},
+			{"[1e999999]", &TDesc{K: KList, Elem: tNumber}}, {`{"a":1e-9999}`, &TDesc{K: KObject, Names: []string{"a"}, Elems: []*TDesc{tString}}}}
 		d := docs[c.G(len(docs))]
 		rec = c17Record{codec: "json", data: []byte(d.doc), t: d.t, enc: d.t, desc: d.doc}
+		if c.G(3) == 0 {
+			// ... and once in a while a record of hundreds of thousands of levels that is nothing but nesting: what a decoder needs
+			// per level (a stack frame, a path step) is paid millions of times. Read back as it is, with a
+			// dynamic target.
+			levels := (4 + c.G(3)) * 100000
+			var unit, tail, closeUnit []byte
+			codec := "msgpack"
+			switch c.G(6) {
+			case 0:
+				codec, unit = "json", []byte("[")
+			case 1:
+				codec, unit, tail, closeUnit = "json", []byte(`{"a":`), []byte("1"), []byte("}")
+			case 2:
+				unit = []byte{0x91}
+			case 3:
+				unit = []byte{0x81, 0xa1, 'a'}
+			case 4:
+				unit, tail = append([]byte{0x92, 0xc4, 9}, `"dynamic"`...), []byte{0xc0}
+			default:
+				unit, tail = append(append([]byte{0x92, 0xc4, 18}, `["list","dynamic"]`...), 0x91), []byte{0xc0}
+			}
+			b := append(bytes.Repeat(unit, levels), tail...)
+			b = append(b, bytes.Repeat(closeUnit, levels)...)
+			rec = c17Record{codec: codec, data: b, t: tDynamic, enc: tDynamic, desc: fmt.Sprintf("%q x %d", unit, levels)}
+			c.Probe("c17.megabytes-of-nesting")
+		}
 		store[ri] = rec
 		c.Probe("c17.huge-exponent-document")
 	}
@@ -1470,7 +1499,12 @@ func simC17Store(c *Ctx) {
 			if ex > report {
 				asig := "alloc:" + d.name
 				if hugeExp {
+					// the recorded finding is about numbers that get hashed or compared: members of sets (or
+					// whatever a dynamic position turns out to hold); elsewhere a huge exponent costs nothing
 					asig += ":huge-exponent"
+					if !tdescHas(target, func(t *TDesc) bool { return t.K == KSet || t.K == KDynamic }) {
+						asig += ":no-set-in-target"
+					}
 				}
 				c.Fail("C17", "excessive-allocation", asig,
 					"%s held %d bytes of heap at its peak (and allocated %d in total) while decoding a %d-byte record; the bound is %d MiB + 16384 x the record size = %d\nrecord: %x\ntarget type: %s",
@@ -1607,6 +1641,25 @@ func hasBigExponent(b []byte) bool {
 			k++
 		}
 		if k-j >= need {
+			return true
+		}
+	}
+	return false
+}
+
+// tdescHas reports whether pred holds for t or any type nested in it.
+func tdescHas(t *TDesc, pred func(*TDesc) bool) bool {
+	if t == nil {
+		return false
+	}
+	if pred(t) {
+		return true
+	}
+	if t.Elem != nil && tdescHas(t.Elem, pred) {
+		return true
+	}
+	for _, e := range t.Elems {
+		if tdescHas(e, pred) {
 			return true
 		}
 	}
